@@ -27,10 +27,13 @@ package main
 import (
 	"context"
 	"fmt"
+	"io"
+	"log/slog"
 	"math"
 	"os"
 	"sort"
 	"strings"
+	"time"
 
 	"github.com/prometheus/prometheus/model/histogram"
 	"github.com/prometheus/prometheus/model/labels"
@@ -335,6 +338,7 @@ func (w *world) hist() *histogram.Histogram {
 
 // event classes steered by the case splits of appendable (and of the proofs).
 var events = []string{"grow", "grow", "grow", "grow", "same", "new-bucket", "reset", "bucket-decrease", "bucket-vanish",
+	"neg-bucket-decrease", "neg-bucket-vanish",
 	"zero-bucket-vanish", "zero-decrease", "schema", "zth", "custom", "stale", "hint-reset", "gauge", "explicit-zero"}
 
 // next evolves the world by one event and returns the histogram to append.
@@ -371,6 +375,26 @@ func (w *world) next(r *gen.Rand, m *gallina.Meta) *histogram.Histogram {
 			delete(w.zeroPos, k)
 			k2 := keys(w.pos)[0]
 			w.pos[k2] += d + 1
+		}
+	case "neg-bucket-decrease":
+		// one-sided: a negative bucket goes down, count, zero count and the positive side go up
+		if ks := keys(w.neg); len(ks) > 0 && !w.isCustom() {
+			k := ks[r.Intn(len(ks))]
+			if w.neg[k] > 0 {
+				d := r.Range(1, w.neg[k])
+				w.neg[k] -= d
+				w.pos[w.pickIdx(r, w.pos)] += d + r.Range(0, 5)
+				if r.Bool() {
+					w.zc += r.Range(1, 3)
+				}
+			}
+		}
+	case "neg-bucket-vanish":
+		if ks := keys(w.neg); len(ks) > 0 && !w.isCustom() {
+			k := ks[r.Intn(len(ks))]
+			d := w.neg[k]
+			delete(w.neg, k)
+			w.pos[w.pickIdx(r, w.pos)] += d + 1
 		}
 	case "zero-bucket-vanish":
 		w.zeroPos = map[int]bool{}
@@ -466,6 +490,24 @@ func headerCode(c chunkenc.CounterResetHeader) int {
 // appendAll mirrors memSeries.appendHistogram / appendFloatHistogram: on a forced cut a fresh chunk is
 // created and the old appender is passed as prev; otherwise the returned chunk replaces (recoded) or
 // follows (new chunk) the current one.
+// useST selects the start-timestamp capable chunk encodings (EncHistogramST / EncFloatHistogramST and,
+// for databases, Options.EnableHistogramSTEncoding) for the cases emitted next.
+var useST bool
+
+func stTag() string {
+	if useST {
+		return "st"
+	}
+	return "plain"
+}
+
+func stOf(t int64) int64 {
+	if useST {
+		return t - 1
+	}
+	return 0
+}
+
 func appendAll(float bool, ops []hop) []chunkenc.Chunk {
 	var chks []chunkenc.Chunk
 	var app chunkenc.Appender
@@ -474,9 +516,14 @@ func appendAll(float bool, ops []hop) []chunkenc.Chunk {
 		if app == nil || op.cut {
 			prev = app
 			var c chunkenc.Chunk
-			if float {
+			switch {
+			case float && useST:
+				c = chunkenc.NewFloatHistogramSTChunk()
+			case float:
 				c = chunkenc.NewFloatHistogramChunk()
-			} else {
+			case useST:
+				c = chunkenc.NewHistogramSTChunk()
+			default:
 				c = chunkenc.NewHistogramChunk()
 			}
 			a, err := c.Appender()
@@ -490,9 +537,9 @@ func appendAll(float bool, ops []hop) []chunkenc.Chunk {
 		var recoded bool
 		var err error
 		if float {
-			nc, recoded, app, err = app.AppendFloatHistogram(prev, 0, op.t, op.h.ToFloat(nil), false)
+			nc, recoded, app, err = app.AppendFloatHistogram(prev, stOf(op.t), op.t, op.h.ToFloat(nil), false)
 		} else {
-			nc, recoded, app, err = app.AppendHistogram(prev, 0, op.t, op.h.Copy(), false)
+			nc, recoded, app, err = app.AppendHistogram(prev, stOf(op.t), op.t, op.h.Copy(), false)
 		}
 		if err != nil {
 			panic(err)
@@ -615,6 +662,10 @@ func chunkHeader(c chunkenc.Chunk) int {
 		return headerCode(x.GetCounterResetHeader())
 	case *chunkenc.FloatHistogramChunk:
 		return headerCode(x.GetCounterResetHeader())
+	case *chunkenc.HistogramSTChunk:
+		return headerCode(x.GetCounterResetHeader())
+	case *chunkenc.FloatHistogramSTChunk:
+		return headerCode(x.GetCounterResetHeader())
 	}
 	panic("unexpected chunk type")
 }
@@ -662,6 +713,7 @@ func emitChunkCase(cf *gallina.CaseFile, m *gallina.Meta, id int, float bool, mo
 	desc.Shape = chunkShape(per, firstT, ivs, shape)
 	m.Hit(fmt.Sprintf("chunk/intervals=%d", len(ivs)))
 	m.Hit("chunk/shape=" + desc.Shape)
+	desc.Kind += "/" + stTag()
 	m.Hit(fmt.Sprintf("chunk/%s/chunks=%s", desc.Kind, bucket(len(chks))))
 	cf.Add(e.String())
 	m.Case(id, desc)
@@ -753,6 +805,7 @@ func emitMergeCase(cf *gallina.CaseFile, m *gallina.Meta, id int, float bool, mo
 		desc.Series = append(desc.Series, d)
 		chks = append(chks, appendAll(float, ops)...)
 	}
+	desc.Kind += "/" + stTag()
 	var it chunkenc.Iterator
 	switch via {
 	case 0:
@@ -784,7 +837,7 @@ func emitMergeCase(cf *gallina.CaseFile, m *gallina.Meta, id int, float bool, mo
 			dups++
 		}
 	}
-	m.Hit("merge/inputs=" + bucket(len(chks)))
+	m.Hit("merge/" + stTag() + "/inputs=" + bucket(len(chks)))
 	m.Hit("merge/equal-timestamps=" + bucket(dups))
 	if dups > 0 {
 		m.Nontrivial++
@@ -1027,6 +1080,7 @@ type dbOp struct {
 type queryDesc struct {
 	Shape string `json:"shape"`
 	Opts  string `json:"opts"`
+	ST    bool   `json:"histogram_st_encoding"`
 	Ops   []dbOp `json:"ops"`
 	Mint  int64  `json:"mint"`
 	Maxt  int64  `json:"maxt"`
@@ -1042,6 +1096,7 @@ type dbRun struct {
 	opts    tsdbx.Options
 	shadow  map[int64]bool // accepted sample timestamps
 	deletes []delIv
+	st      bool // opened with Options.EnableHistogramSTEncoding (raw tsdb.Open, not tsdbx)
 }
 
 func (d *dbRun) appendOne(t int64, h *histogram.Histogram, float bool) {
@@ -1162,8 +1217,11 @@ func (d *dbRun) query(cf *gallina.CaseFile, m *gallina.Meta, id int, mint, maxt 
 	}
 	e.obsList(direct)
 	cf.Add(e.String())
-	m.Case(id, queryDesc{Shape: shape, Opts: fmt.Sprintf("%+v", d.opts), Ops: d.ops, Mint: mint, Maxt: maxt, Srcs: len(rec), N: len(direct)})
+	m.Case(id, queryDesc{ST: d.st, Shape: shape, Opts: fmt.Sprintf("%+v", d.opts), Ops: d.ops, Mint: mint, Maxt: maxt, Srcs: len(rec), N: len(direct)})
 	m.Hit("query/sources=" + bucket(len(rec)))
+	if d.st {
+		m.Hit("query/st-encoding")
+	}
 	m.Hit("query/shape=" + shape)
 	nr := 0
 	for _, o := range direct {
@@ -1182,11 +1240,61 @@ func openRun(base string, o tsdbx.Options) *dbRun {
 	if err != nil {
 		panic(err)
 	}
+	if useST {
+		return &dbRun{db: &tsdbx.DB{DB: openST(dir, o), Dir: dir, Opts: o}, opts: o, shadow: map[int64]bool{}, st: true}
+	}
 	db, err := tsdbx.Open(dir, o)
 	if err != nil {
 		panic(err)
 	}
 	return &dbRun{db: db, opts: o, shadow: map[int64]bool{}}
+}
+
+// openST opens the database with the ST-capable histogram chunk encodings
+// (Options.EnableHistogramSTEncoding), which tsdbx.Options cannot express; the other options mirror
+// tsdbx. Compaction then runs through the unmodified DB.Compact (real planner).
+func openST(dir string, o tsdbx.Options) *tsdb.DB {
+	t := tsdb.DefaultOptions()
+	t.MinBlockDuration = o.BlockRange
+	t.MaxBlockDuration = o.BlockRange * 27
+	t.RetentionDuration = 0
+	t.MaxBytes = 0
+	t.OutOfOrderTimeWindow = o.OOOWindow
+	if o.OOOCapMax > 0 {
+		t.OutOfOrderCapMax = o.OOOCapMax
+	}
+	t.EnableOverlappingCompaction = o.Overlapping
+	t.EnableHistogramSTEncoding = true
+	t.NoLockfile = true
+	t.StripeSize = 64
+	t.BlockReloadInterval = 24 * time.Hour
+	t.WALSegmentSize = 1 << 20
+	t.HeadChunksWriteBufferSize = 64 * 1024
+	t.EnableDelayedCompaction = false
+	db, err := tsdb.Open(dir, slog.New(slog.NewTextHandler(io.Discard, nil)), nil, t, nil)
+	if err != nil {
+		panic(err)
+	}
+	db.DisableCompactions()
+	return db
+}
+
+func (d *dbRun) compact() error {
+	if d.st {
+		return d.db.DB.Compact(context.Background())
+	}
+	return d.db.Compact()
+}
+
+func (d *dbRun) reopen() error {
+	if d.st {
+		if err := d.db.DB.Close(); err != nil {
+			return err
+		}
+		d.db.DB = openST(d.db.Dir, d.opts)
+		return nil
+	}
+	return d.db.Reopen()
 }
 
 func (d *dbRun) close() {
@@ -1250,13 +1358,13 @@ func genDB(r *gen.Rand, cf *gallina.CaseFile, m *gallina.Meta, base string, id i
 		}
 		switch r.Intn(40) {
 		case 0, 1:
-			d.do("compact", d.db.Compact)
+			d.do("compact", d.compact)
 		case 2, 3:
 			d.do("compact-ooo", d.db.CompactOOOHead)
 		case 4:
-			d.do("reopen", d.db.Reopen)
+			d.do("reopen", d.reopen)
 		case 5:
-			if bs := d.db.Blocks(); len(bs) >= 2 && !d.db.Compactable() {
+			if bs := d.db.Blocks(); len(bs) >= 2 && !d.db.Compactable() && !d.st {
 				k := r.Intn(len(bs) - 1)
 				d.do("merge-blocks", func() error { return d.db.MergeBlocks([]string{bs[k].ULID, bs[k+1].ULID}) })
 			}
@@ -1382,6 +1490,36 @@ func corpus(cf *gallina.CaseFile, m *gallina.Meta, base string, id int) int {
 	d.query(cf, m, id, math.MinInt64, math.MaxInt64)
 	id++
 	d.close()
+	// one-sided bucket resets (a positive / a negative bucket goes down or vanishes while count, zero
+	// count and the other side grow), all four appenders: int, float, int-ST, float-ST (chunk cases
+	// 19..26), and through a database with the ST encodings (query cases 27, 28)
+	side := func(zc, p0, p1, n0 int64) *histogram.Histogram {
+		return &histogram.Histogram{Schema: 0, ZeroThreshold: 0.001, ZeroCount: uint64(zc), Count: uint64(zc + p0 + p1 + n0), Sum: 1,
+			PositiveSpans: []histogram.Span{{Offset: 0, Length: 2}}, PositiveBuckets: []int64{p0, p1 - p0},
+			NegativeSpans: []histogram.Span{{Offset: 0, Length: 1}}, NegativeBuckets: []int64{n0}}
+	}
+	posDown := []hop{{false, 100, side(1, 10, 10, 5)}, {false, 200, side(2, 12, 11, 6)}, {false, 300, side(3, 4, 30, 7)}, {false, 400, side(4, 5, 33, 8)}}
+	negDown := []hop{{false, 100, side(1, 10, 10, 9)}, {false, 200, side(2, 12, 11, 10)}, {false, 300, side(3, 13, 30, 2)}, {false, 400, side(4, 14, 33, 3)}}
+	for _, st := range []bool{false, true} {
+		for _, fl := range []bool{false, true} {
+			useST = st
+			emitChunkCase(cf, m, id, fl, 0, posDown, nil, "chunk-corpus")
+			id++
+			emitChunkCase(cf, m, id, fl, 0, negDown, nil, "chunk-corpus")
+			id++
+		}
+	}
+	useST = true
+	for _, seq := range [][]hop{posDown, negDown} {
+		d = openRun(base, tsdbx.Options{BlockRange: 100000})
+		for _, op := range seq {
+			d.appendOne(op.t, op.h, true)
+		}
+		d.query(cf, m, id, math.MinInt64, math.MaxInt64)
+		id++
+		d.close()
+	}
+	useST = false
 	return id
 }
 
@@ -1405,17 +1543,20 @@ func main() {
 	for i := 0; i < nChunk; i++ {
 		r := gen.Fork(f.Seed, id)
 		fl, mode, ops, ivs := genChunkCase(r, m)
+		useST = r.Chance(1, 2)
 		emitChunkCase(cf, m, id, fl, mode, ops, ivs, "chunk")
 		id++
 	}
 	for i := 0; i < nMerge; i++ {
 		r := gen.Fork(f.Seed, id)
 		fl, mode, via, series := genMergeCase(r, m)
+		useST = r.Chance(1, 2)
 		emitMergeCase(cf, m, id, fl, mode, via, series, "merge")
 		id++
 	}
 	for i := 0; i < nDB; i++ {
 		r := gen.Fork(f.Seed, id)
+		useST = i%2 == 1
 		id = genDB(r, cf, m, base, id, 6)
 	}
 	cf.Flush()
